@@ -188,6 +188,26 @@ def check_case(case):
                     r.fail(clause, f"{detail}\n{text}", None, None, tags=tags)
             else:
                 r.outcome("valid-faithful")
+            # the same sections written in every other order (:goal before :init, :init before :objects, ...): the
+            # problem read is the same, or the text is refused - a section is never silently left out
+            if not diffs:
+                from itertools import permutations as _perms
+                tree = sexp.read(text)
+                head, sections = tree[:3], tree[3:]
+                for perm in list(_perms(range(len(sections))))[1:]:
+                    text2 = sexp.dumps(head + [sections[i] for i in perm])
+                    P2 = guard(parse_problem, text2, dom(v["typed"]))
+                    r.count("transitions")
+                    if isinstance(P2, Raised):
+                        r.outcome("section-order-refused")
+                        continue
+                    got2 = guard(observe_problem, P2)
+                    d2 = compare(expected(v), got2) if not isinstance(got2, Raised) else [("unreadable-problem", str(got2))]
+                    if d2:
+                        r.outcome("valid-altered")
+                        r.fail("section-order", f"sections written in the order {[sections[i][0] for i in perm]}: {d2[0][1]}\n{text2}",
+                               None, None, tags=tags + ["section-order"])
+                        break
             # the problem parsed before this one over the same Domain object still reads as it did
             if earlier is not None:
                 again = guard(observe_problem, earlier[0])
